@@ -2392,3 +2392,250 @@ func ruleR169(c *Ctx) {
 		c.Missing("aliasing appends", "no append onto a field whose result is used as a value was found")
 	}
 }
+
+// ---- R170–R173: structural parts of four faults that had been declined as value-level ----
+
+func init() {
+	register(&Rule{ID: "R170", Title: "a clock's wake-up carries the clock's time: what Until/After of a clock send on the channel they return is never the instant the caller asked for", Min: 2, Run: ruleR170})
+	register(&Rule{ID: "R171", Title: "first fit over the whole list: the loop of a satisfier that looks for the chain which still lacks the event visits every chain from the first one", Min: 2, Run: ruleR171})
+	register(&Rule{ID: "R172", Title: "a layout cursor is carried through the loop: a variable that is declared before a loop, handed to the per-item layout inside it and assigned inside it is assigned from itself", Min: 1, Run: ruleR172})
+	register(&Rule{ID: "R173", Title: "a text payload is written back whole: what is handed to SetTextPayload outside the accessors derives from the payload through strings.TrimSpace at most", Min: 1, Run: ruleR173})
+}
+
+func ruleR170(c *Ctx) {
+	p := c.P
+	what := "a timer derives its next due time from the time the clock delivers (`case t = <-timer`). If Until reports the requested instant instead of the clock's time when that instant has already passed, a cycle timer walks forward from the schedule instead of from the clock and fires a catch-up burst at one clock instant"
+	n := 0
+	for _, f := range p.Funcs {
+		if f.Body == nil || f.Obj == nil || f.Pkg.PkgPath != pathClock || !(f.Obj.Name() == "Until" || f.Obj.Name() == "After") || recvNamed(f.Obj) == nil {
+			continue
+		}
+		sig := f.Obj.Type().(*types.Signature)
+		if sig.Params().Len() != 1 {
+			continue
+		}
+		pv := sig.Params().At(0)
+		in := info(f)
+		n++
+		var bad *ast.SendStmt
+		ast.Inspect(f.Body, func(m ast.Node) bool {
+			s, ok := m.(*ast.SendStmt)
+			if !ok {
+				return true
+			}
+			if id, isId := unparen(s.Value).(*ast.Ident); isId && in.Uses[id] == types.Object(pv) {
+				bad = s
+			}
+			return true
+		})
+		c.Check(bad == nil, f, f.Decl, f.QName()+" delivers the clock's time", what, ifElse(bad == nil, "no send carries the parameter "+pv.Name(), "a send carries the requested instant "+pv.Name()))
+	}
+	if n == 0 {
+		c.Missing("clock wake-ups", "no Until/After method was found in pkg/clock")
+	}
+}
+
+func ruleR171(c *Ctx) {
+	p := c.P
+	what := "an arriving definition goes into the FIRST open chain that lacks it. Removing a completed chain moves the last chain into the freed slot, so the chains that lack a definition do not form a suffix: a scan that skips a prefix opens a new chain although an earlier one could take the event, and the partial sets can no longer be paired up"
+	n := 0
+	for _, f := range p.Funcs {
+		if f.Body == nil || f.Obj == nil || f.Pkg.PkgPath != pathLogic || f.Obj.Name() != "Satisfy" {
+			continue
+		}
+		in := info(f)
+		inspectNoLit(f.Body, func(m ast.Node) bool {
+			var body *ast.BlockStmt
+			whole, how := false, ""
+			var over ast.Expr
+			switch x := m.(type) {
+			case *ast.RangeStmt:
+				body, over = x.Body, x.X
+				whole, how = true, "range over the whole list"
+			case *ast.ForStmt:
+				body = x.Body
+				if as, ok := x.Init.(*ast.AssignStmt); ok && len(as.Rhs) == 1 {
+					if tv, has := in.Types[as.Rhs[0]]; has && tv.Value != nil && tv.Value.String() == "0" {
+						whole, how = true, "index loop from 0"
+					} else {
+						how = "index loop that starts at " + exprString(as.Rhs[0])
+					}
+				} else {
+					how = "loop without a start at 0"
+				}
+				if be, ok := x.Cond.(*ast.BinaryExpr); ok {
+					if cl, ok := unparen(be.Y).(*ast.CallExpr); ok && isBuiltin(in, cl, "len") && len(cl.Args) == 1 {
+						over = cl.Args[0]
+					}
+				}
+			default:
+				return true
+			}
+			fv := fieldOf(in, exprOrNil(over))
+			if body == nil || fv == nil {
+				return true
+			}
+			if _, isSlice := fv.Type().Underlying().(*types.Slice); !isSlice {
+				return true
+			}
+			// the fitting loop: tests a bit of the chain and sets it
+			tests, sets := false, false
+			inspectNoLit(body, func(z ast.Node) bool {
+				if cl, ok := z.(*ast.CallExpr); ok {
+					if se, ok := unparen(cl.Fun).(*ast.SelectorExpr); ok {
+						if ix, ok := unparen(se.X).(*ast.IndexExpr); ok && fieldOf(in, ix.X) == fv {
+							switch se.Sel.Name {
+							case "Test":
+								tests = true
+							case "Set":
+								sets = true
+							}
+						}
+					}
+				}
+				return true
+			})
+			if !tests || !sets {
+				return true
+			}
+			n++
+			c.Check(whole, f, m, "first-fit scan over "+fv.Name(), what, how)
+			return true
+		})
+	}
+	if n == 0 {
+		c.Missing("first-fit scans", "no loop over a chain list that tests and sets a bit was found in pkg/logic")
+	}
+}
+
+func ruleR172(c *Ctx) {
+	p := c.P
+	what := "processes are stacked one below the other: the vertical cursor of the next process is the cursor of this one plus its height and the gap. Computed from the start value instead of from itself, the third and every later process lands on top of the second"
+	n := 0
+	for _, f := range p.Funcs {
+		if f.Body == nil || f.Pkg.PkgPath != pathSchema || f.File == nil || !strings.HasSuffix(p.Fset.Position(f.File.Pos()).Filename, "builder.go") {
+			continue
+		}
+		in := info(f)
+		inspectNoLit(f.Body, func(m ast.Node) bool {
+			var body *ast.BlockStmt
+			switch x := m.(type) {
+			case *ast.RangeStmt:
+				body = x.Body
+			case *ast.ForStmt:
+				body = x.Body
+			}
+			if body == nil {
+				return true
+			}
+			// locals declared before the loop that are passed to a same-package call inside it
+			passed := map[types.Object]bool{}
+			inspectNoLit(body, func(z ast.Node) bool {
+				if cl, ok := z.(*ast.CallExpr); ok {
+					if cf := p.byObj[callee(in, cl)]; cf != nil && cf.Pkg == f.Pkg {
+						for _, a := range cl.Args {
+							if id, ok := unparen(a).(*ast.Ident); ok {
+								if o := objOf(in, id); o != nil && isLocalVar(f.Root(), o) && o.Pos() < m.Pos() {
+									if b, isBasic := o.Type().Underlying().(*types.Basic); isBasic && b.Info()&types.IsNumeric != 0 {
+										passed[o] = true
+									}
+								}
+							}
+						}
+					}
+				}
+				return true
+			})
+			inspectNoLit(body, func(z ast.Node) bool {
+				as, ok := z.(*ast.AssignStmt)
+				if !ok || len(as.Lhs) != 1 || len(as.Rhs) != 1 {
+					return true
+				}
+				id, ok := unparen(as.Lhs[0]).(*ast.Ident)
+				if !ok {
+					return true
+				}
+				o := objOf(in, id)
+				if o == nil || !passed[o] {
+					return true
+				}
+				n++
+				self := as.Tok != token.ASSIGN && as.Tok != token.DEFINE
+				if !self {
+					self = mentionsDeep(as.Rhs[0], func(y ast.Node) bool {
+						yid, ok := y.(*ast.Ident)
+						return ok && objOf(in, yid) == o
+					})
+				}
+				c.Check(self, f, as, "loop-carried cursor "+id.Name, what, ifElse(self, "assigned from itself ("+as.Tok.String()+")", "assigned from "+exprString(as.Rhs[0])+", which does not mention "+id.Name))
+				return true
+			})
+			return true
+		})
+	}
+	if n == 0 {
+		c.Missing("layout cursors", "no loop-carried cursor handed to a per-item layout function was found in schema/builder.go")
+	}
+}
+
+func ruleR173(c *Ctx) {
+	p := c.P
+	what := "script bodies, conditions and documentation are text payloads; the reader already strips leading and trailing blanks, everything in between is content (indentation is significant in more than one script language). Writing back a payload that was split, re-joined or otherwise edited changes what the re-parsed model says"
+	n := 0
+	for _, f := range p.Funcs {
+		if f.Body == nil || f.Pkg.PkgPath != pathSchema {
+			continue
+		}
+		// the accessors themselves (methods named SetTextPayload / TextPayload) are not users
+		if f.Obj != nil && strings.Contains(f.Obj.Name(), "TextPayload") {
+			continue
+		}
+		in := info(f)
+		inspectNoLit(f.Body, func(m ast.Node) bool {
+			cl, ok := m.(*ast.CallExpr)
+			if !ok || len(cl.Args) != 1 {
+				return true
+			}
+			se, ok := unparen(cl.Fun).(*ast.SelectorExpr)
+			if !ok || se.Sel.Name != "SetTextPayload" {
+				return true
+			}
+			n++
+			// resolve the argument through locals; collect the functions applied on the way
+			var applied []string
+			seen := map[types.Object]bool{}
+			var walk func(e ast.Expr)
+			walk = func(e ast.Expr) {
+				ast.Inspect(e, func(z ast.Node) bool {
+					switch x := z.(type) {
+					case *ast.CallExpr:
+						if fn := callee(in, x); fn != nil && fn.Pkg() != nil {
+							applied = append(applied, fn.Pkg().Name()+"."+fn.Name())
+						}
+					case *ast.Ident:
+						if o := objOf(in, x); o != nil && isLocalVar(f.Root(), o) && !seen[o] {
+							seen[o] = true
+							defs, _ := localDefs(in, f.Root().Body, o)
+							for _, d := range defs {
+								walk(d)
+							}
+						}
+					}
+					return true
+				})
+			}
+			walk(cl.Args[0])
+			var extra []string
+			for _, a := range applied {
+				if a != "strings.TrimSpace" && !strings.HasSuffix(a, ".TextPayload") {
+					extra = append(extra, a)
+				}
+			}
+			c.Check(len(extra) == 0, f, cl, "payload handed to SetTextPayload", what, ifElse(len(extra) == 0, fmt.Sprintf("derived through %v", applied), fmt.Sprintf("derived through %v", applied)))
+			return true
+		})
+	}
+	if n == 0 {
+		c.Missing("SetTextPayload users", "no call of SetTextPayload outside the accessors was found in the schema package")
+	}
+}
